@@ -212,11 +212,9 @@ func (c *Conn) waitCloseHandshake() error {
 	}
 	defer c.readMu.unlock()
 
-	for i := int64(0); i < c.msgReader.payloadLength; i++ {
-		_, err := c.br.ReadByte()
-		if err != nil {
-			return err
-		}
+	err = c.discardPayload(ctx, c.msgReader.payloadLength)
+	if err != nil {
+		return err
 	}
 
 	for {
@@ -225,13 +223,30 @@ func (c *Conn) waitCloseHandshake() error {
 			return err
 		}
 
-		for i := int64(0); i < h.payloadLength; i++ {
-			_, err := c.br.ReadByte()
-			if err != nil {
-				return err
-			}
+		err = c.discardPayload(ctx, h.payloadLength)
+		if err != nil {
+			return err
 		}
 	}
+}
+
+// discardPayload reads and drops n payload bytes while waiting for the peer's
+// close frame. The read is bounded by ctx like every other read: without that
+// a peer that stops sending in the middle of a payload would block Close forever.
+func (c *Conn) discardPayload(ctx context.Context, n int64) error {
+	select {
+	case <-c.closed:
+		return net.ErrClosed
+	case c.readTimeout <- ctx:
+	}
+
+	for i := int64(0); i < n; i++ {
+		_, err := c.br.ReadByte()
+		if err != nil {
+			return err
+		}
+	}
+	return nil
 }
 
 func (c *Conn) waitGoroutines() error {
